@@ -392,8 +392,12 @@ func c16UniqueOrder(e *Env) {
 		return
 	}
 	info := gen.TypesInfo
-	isMangle := func(f *types.Func) bool { return f != nil && f.Pkg() == gen.Types && f.Name() == "convertToMiddlewareName" }
-	isUniq := func(f *types.Func) bool { return f != nil && f.Pkg() == util.Types && f.Name() == "GetMiddlewareUniqueName" }
+	isMangle := func(f *types.Func) bool {
+		return f != nil && f.Pkg() == gen.Types && f.Name() == "convertToMiddlewareName"
+	}
+	isUniq := func(f *types.Func) bool {
+		return f != nil && f.Pkg() == util.Types && f.Name() == "GetMiddlewareUniqueName"
+	}
 	n := 0
 	for _, fi := range declaredNonTest(w) {
 		if fi.Pkg != gen {
